@@ -58,6 +58,7 @@ index.update(base.get("index_override", {})); manifest.update(base.get("manifest
 
 # ---- extension handoffs (session 3): ADD to an existing property's entry instead of replacing it --------------------
 EXTENSIONS = base.get("extension_handoffs", [])
+_note_replaced = set()
 for name in EXTENSIONS:
     path = os.path.join(root, "handoff", name + ".json")
     if not os.path.exists(path):
@@ -108,9 +109,15 @@ for name in EXTENSIONS:
         add = v.get("text_add") or v.get("text_addition")
         if add and add not in m.get("text", ""):
             m["text"] = m.get("text", "").rstrip() + " EXTENSION: " + add
-        note = v.get("note") or v.get("note_addition")
-        if note and note not in m.get("note", ""):
-            m["note"] = (m.get("note", "").rstrip() + " | " + note).strip(" |")
+        if v.get("note") and not v.get("text"):
+            # the first extension of a property replaces the base note (which described the state before the extensions);
+            # later ones append
+            if k not in _note_replaced:
+                m["note"] = v["note"]; _note_replaced.add(k)
+            elif v["note"] not in m.get("note", ""):
+                m["note"] = m["note"].rstrip() + " | " + v["note"]
+        if v.get("note_addition") and v["note_addition"] not in m.get("note", ""):
+            m["note"] = (m.get("note", "").rstrip() + " | " + v["note_addition"]).strip(" |")
         if v.get("technique"):
             m["technique"] = v["technique"]
     for f in h.get("findings", []):
@@ -121,6 +128,10 @@ for name in EXTENSIONS:
         findings[:] = [g for g in findings if (g["property"], g["id"]) != key]
         findings.append(f)
     notes[name] = h.get("design_notes", "")
+
+for k, note in base.get("note_override", {}).items():
+    if k in manifest:
+        manifest[k] = dict(manifest[k]); manifest[k]["note"] = note
 
 def write(p, s):
     p = os.path.join(root, p)
